@@ -26,8 +26,9 @@ pub const INC_IN_CALL_BODY: usize = 15;
 pub const COMP_IN_CAPTURE: usize = 16;
 pub const COMP_REENTRY: usize = 17;
 pub const OWN_COMP: usize = 18;
+pub const INCLUDE2_SAME_POS: usize = 19;
 
-pub const SITES: [&str; 19] = [
+pub const SITES: [&str; 20] = [
     "top",               // entry template, top level
     "block",             // inside a block of the entry template (which extends base.html)
     "super",             // block of the parent, reached through super() of the entry template
@@ -56,6 +57,10 @@ pub const SITES: [&str; 19] = [
     // component-defining template IS the entry; rendered on the fly, it is the one template of the
     // set that no registry lookup by name can find: seeded change C12-10)
     "own-comp",
+    // include inside an include, the two include tags at the SAME line, column and byte range of
+    // their templates (seeded change C12-14 dropped a `called from` note that looked like the
+    // previous one - same label, same span - forgetting that it names another template)
+    "include2-same-position",
 ];
 
 /// bit masks over sites
@@ -68,13 +73,13 @@ pub const fn m(sites: &[usize]) -> u32 {
     }
     r
 }
-pub const ALL: u32 = (1 << 19) - 1;
+pub const ALL: u32 = (1 << 20) - 1;
 /// sites whose code is executed by rendering entry.html
 pub const RENDERED: u32 = ALL & !m(&[CHILD_TOP]);
 /// sites where a `{% block %}` may be written (not inside a component definition / for / if)
-pub const BLOCK_OK: u32 = m(&[TOP, BLOCK, SUPER, PARENT_TOP, INCLUDE, INCLUDE2, CALL_BODY, CAPTURE, INC_IN_SET, INC_IN_FILTER, INC_IN_CALL_BODY]);
+pub const BLOCK_OK: u32 = m(&[TOP, BLOCK, SUPER, PARENT_TOP, INCLUDE, INCLUDE2, CALL_BODY, CAPTURE, INC_IN_SET, INC_IN_FILTER, INC_IN_CALL_BODY, INCLUDE2_SAME_POS]);
 /// sites at the top level of a file, where a component definition / `extends` may be written
-pub const FILE_TOP: u32 = m(&[TOP, PARENT_TOP, INCLUDE, INCLUDE2, CHILD_TOP, INC_IN_SET, INC_IN_FILTER, INC_IN_CALL_BODY]);
+pub const FILE_TOP: u32 = m(&[TOP, PARENT_TOP, INCLUDE, INCLUDE2, CHILD_TOP, INC_IN_SET, INC_IN_FILTER, INC_IN_CALL_BODY, INCLUDE2_SAME_POS]);
 
 /// What precedes the snippet (DESIGN §4 C12 paddings, plus one mixed form).
 pub const PADS: [(&str, &str); 6] = [
@@ -140,14 +145,14 @@ const CARD_TAG: &str = "{{ <Card /> }}";
 /// sites whose entry template neither extends nor holds a block: it can be given to `render_str`
 pub const ON_THE_FLY_OK: u32 = m(&[
     TOP, INCLUDE, INCLUDE2, COMP_BODY, COMP_FROM_INCLUDE, CALL_BODY, FOR_IF, CAPTURE, INC_IN_SET, INC_IN_FILTER,
-    INC_IN_CALL_BODY, COMP_IN_CAPTURE, COMP_REENTRY, OWN_COMP,
+    INC_IN_CALL_BODY, COMP_IN_CAPTURE, COMP_REENTRY, OWN_COMP, INCLUDE2_SAME_POS,
 ]);
 /// the name the engine gives to a template rendered on the fly
 pub const ONE_OFF: &str = "__tera_one_off";
 
 /// sites where the planted text runs to the end of its file (so that a snippet planted without
 /// tail is followed by the end of input)
-pub const FILE_END: u32 = m(&[TOP, INCLUDE, INCLUDE2, INC_IN_SET, INC_IN_FILTER, INC_IN_CALL_BODY]);
+pub const FILE_END: u32 = m(&[TOP, INCLUDE, INCLUDE2, INC_IN_SET, INC_IN_FILTER, INC_IN_CALL_BODY, INCLUDE2_SAME_POS]);
 
 pub fn plant(site: usize, pad: &str, snippet: &str, tail: bool) -> Planted {
     assert!(tail || FILE_END & (1 << site) != 0);
@@ -207,6 +212,17 @@ pub fn plant(site: usize, pad: &str, snippet: &str, tail: bool) -> Planted {
             calls.push(("entry.html", tag_range(&entry_inc, INC1_TAG)));
             tpls.push(("inc1.html", inc1));
             tpls.push(("entry.html", entry_inc));
+        }
+        INCLUDE2_SAME_POS => {
+            file = "inc2.html";
+            offset = at("");
+            let inc1 = format!("{INC2_TAG}\n");
+            let entry = format!("{INC1_TAG}\n");
+            tpls.push(("inc2.html", body));
+            calls.push(("inc1.html", tag_range(&inc1, INC2_TAG)));
+            calls.push(("entry.html", tag_range(&entry, INC1_TAG)));
+            tpls.push(("inc1.html", inc1));
+            tpls.push(("entry.html", entry));
         }
         COMP_BODY => {
             file = "comps.html";
